@@ -543,5 +543,25 @@ mut("17-old-table-wins", "C17", "configured-address-wins", ("mtproto.go", "	if m
 mut("17N-table-rebuilt-aside-in-order", "C17", None, ("mtproto.go", "	if m.dclist == nil {\n		m.dclist = make(map[int]string)\n	}\n	for k, v := range in {\n		m.dclist[k] = v\n	}\n", "	merged := make(map[int]string)\n	for k, v := range m.dclist {\n		merged[k] = v\n	}\n	for k, v := range in {\n		merged[k] = v\n	}\n	m.dclist = merged\n"))
 mut("06-service-send-may-drop", "C06", "read-message-is-handed-on", ("mtproto.go", "		m.serviceChannel <- obj\n		return nil\n", "		select {\n		case m.serviceChannel <- obj:\n		default:\n		}\n		return nil\n"))
 
+# wave 2
+CW = "internal/encoding/tl/cursor_w.go"
+ENC = "internal/encoding/tl/encoder.go"
+mut("02-encoder-keeps-field-list", "C02", "no-scratch-across-reentry", (CW, "	err error\n}\n\nfunc NewEncoder", "	err error\n\n	pending []reflect.Value\n}\n\nfunc NewEncoder"), (CW, "	\"math\"\n", "	\"math\"\n	\"reflect\"\n"),
+    (ENC, "	var tmpObjects = make([]reflect.Value, 0)\n", "	var tmpObjects = c.pending[:0]\n	defer func() { c.pending = tmpObjects }()\n"))
+mut("02N-encoder-field-never-assigned", "C02", None, (CW, "	err error\n}\n\nfunc NewEncoder", "	err error\n\n	pending []reflect.Value\n}\n\nfunc NewEncoder"), (CW, "	\"math\"\n", "	\"math\"\n	\"reflect\"\n"),
+    (ENC, "	var tmpObjects = make([]reflect.Value, 0)\n", "	var tmpObjects = c.pending[:0]\n"))
+mut("02N-encoder-word-scratch", "C02", None, (CW, "	err error\n}\n\nfunc NewEncoder", "	err error\n\n	word []byte\n}\n\nfunc NewEncoder"),
+    (CW, "	buf := make([]byte, WordLen)\n	binary.LittleEndian.PutUint32(buf, v)\n	e.write(buf)\n", "	if e.word == nil {\n		e.word = make([]byte, WordLen)\n	}\n	buf := e.word\n	binary.LittleEndian.PutUint32(buf, v)\n	e.write(buf)\n"))
+mut("05-decrypt-trims-zeros", "C05", "result-is-the-loop-output", ("internal/aes_ige/aes.go", "		return nil, err\n	}\n\n	return out, nil\n}\n\nfunc doAES256IGEencrypt(", "		return nil, err\n	}\n\n	return bytes.TrimRight(out, \"\\x00\"), nil\n}\n\nfunc doAES256IGEencrypt("))
+mut("08-detect-reads-into-announcement", "C08", "global-write", ("internal/mode/mode.go", "		_, err = conn.Read(modeAnnounce[1:])\n", "		_, err = io.ReadFull(conn, transportModeIntermediate[1:])\n		copy(modeAnnounce, transportModeIntermediate[:])\n"))
+mut("12-store-renders-by-hand", "C12", "pair:json", ("internal/session/file.go", "	data, _ := json.Marshal(file)\n", "	data := []byte(\"{\\\"key\\\":\\\"\" + file.Key + \"\\\",\\\"hash\\\":\\\"\" + file.Hash + \"\\\",\\\"salt\\\":\\\"\" + file.Salt + \"\\\",\\\"hostname\\\":\\\"\" + file.Hostname + \"\\\"}\")\n"))
+mut("12N-store-checks-marshal-error", "C12", None, ("internal/session/file.go", "	data, _ := json.Marshal(file)\n", "	data, err := json.Marshal(file)\n	if err != nil {\n		return err\n	}\n"))
+mut("14-body-counts-without-flags", "C14", "arity-predicate", ("internal/cmd/tlgen/gen/tl_gen_methods.go", "func (g *Generator) generateMethodArgumentForMakingRequest(obj *tlparser.Method) *jen.Statement {\n	if len(obj.Parameters) > maximumPositionalArguments {", "func (g *Generator) generateMethodArgumentForMakingRequest(obj *tlparser.Method) *jen.Statement {\n	if len(obj.Parameters) >= maximumPositionalArguments {"))
+mut("18-hash-appends-to-salt", "C18", "param-untouched", ("telegram/internal/srp/2fa.go", "	return calcSHA256(salt, data, salt)\n", "	return calcSHA256(append(salt, data...), salt)\n"))
+mut("18N-hash-concatenates-aside", "C18", None, ("telegram/internal/srp/2fa.go", "	return calcSHA256(salt, data, salt)\n", "	joined := make([]byte, 0, 2*len(salt)+len(data))\n	joined = append(append(append(joined, salt...), data...), salt...)\n	return calcSHA256(joined)\n"))
+mut("19-exponent-kept-in-sync-map", "C19", "global-write", ("internal/math/math.go", "func MakeGAB(g int32, g_a, dh_prime *big.Int) (b, g_b, g_ab *big.Int) {\n", "var seedExponents sync.Map\n\nfunc MakeGAB(g int32, g_a, dh_prime *big.Int) (b, g_b, g_ab *big.Int) {\n	defer func() { seedExponents.Store(dh_prime.String(), b) }()\n"), ("internal/math/math.go", "	\"time\"\n", "	\"sync\"\n	\"time\"\n"))
+mut("20-domain-unescaped-first", "C20", "the-path-variable-itself", ("telegram/deeplinks/resolver.go", "				Domain: strings.ToLower(username),", "				Domain: strings.ToLower(strings.TrimSuffix(username, \".\")),"))
+mut("20N-domain-lowered-via-local", "C20", None, ("telegram/deeplinks/resolver.go", "			return &ResolveParameters{\n				Domain: strings.ToLower(username),", "			lowered := strings.ToLower(username)\n			return &ResolveParameters{\n				Domain: lowered,"))
+
 json.dump(M, open('/verif/selftest/mutations.json', 'w'), indent=1, ensure_ascii=False)
 print(len(M), "mutations")
